@@ -2,6 +2,7 @@
 from __future__ import annotations
 
 import copy
+import decimal
 import warnings
 import xml.etree.ElementTree as ET
 
@@ -64,10 +65,17 @@ def obligations(cls):
                 out.append({"kind": "string-at-limit", "attr": a, "n": tt.length, "ch": "&"})
                 if tt.strict:
                     out.append({"kind": "string-over-limit", "attr": a, "n": tt.length + 1, "ch": "<"})
+                    # over the limit by one blank / no-break space / combining mark
+                    for tail in (" ", "\u00a0", "\u0301"):
+                        out.append({"kind": "string-over-limit", "attr": a, "n": tt.length + 1, "tail": tail})
             elif isinstance(tt, Types.Integer) and tt.length is not None:
                 out.append({"kind": "integer-over-limit", "attr": a, "value": 10**tt.length})
                 out.append({"kind": "integer-over-limit-negative", "attr": a, "value": -(10**tt.length)})
                 out.append({"kind": "integer-at-limit", "attr": a, "value": 10**tt.length - 1})
+                # the same over-limit number handed over as another numeric Python type (keyword route)
+                out.append({"kind": "integer-over-limit-as-number", "attr": a, "value": ["raw_dec", str(10**tt.length)]})
+                out.append({"kind": "integer-over-limit-as-number", "attr": a, "value": ["raw_dec", "1E+%d" % tt.length]})
+                out.append({"kind": "integer-over-limit-as-number", "attr": a, "value": ["raw_float", float(10**tt.length)]})
         out.append({"kind": "duplicate-child", "attr": a})
     for (a, _, _), (b, _, _) in zip(nonlist, nonlist[1:]):
         out.append({"kind": "swap-children", "a": a, "b": b})
@@ -225,10 +233,13 @@ def build_violation(ob, base=None):
         desc["kw"][ob["attr"]] = ["raw", ob["token"]]
     elif kind in ("string-over-limit", "string-at-limit"):
         desc = _with(cls, [ob["attr"]], base, consistent=kind == "string-at-limit")
-        desc["kw"][ob["attr"]] = ["str", ob.get("ch", "x") * ob["n"]]
+        desc["kw"][ob["attr"]] = ["str", ob.get("ch", "x") * ob["n"]] if "tail" not in ob else ["str", "x" * (ob["n"] - 1) + ob["tail"]]
     elif kind in ("integer-over-limit", "integer-over-limit-negative", "integer-at-limit"):
         desc = _with(cls, [ob["attr"]], base, consistent=kind == "integer-at-limit")
         desc["kw"][ob["attr"]] = ["int", ob["value"]]
+    elif kind == "integer-over-limit-as-number":
+        desc = _with(cls, [ob["attr"]], base)
+        desc["kw"][ob["attr"]] = ob["value"]
     elif kind in ("two-of-at-most-one", "two-of-exactly-one"):
         desc = _with(cls, [ob["a"], ob["b"]], base)
     elif kind == "none-of-exactly-one":
@@ -308,7 +319,7 @@ def _build_raw(desc):
     kw = {}
     for k, v in desc["kw"].items():
         if M.is_scalar(v):
-            kw[k] = v[1] if v[0] == "raw" else M.untag(v)
+            kw[k] = v[1] if v[0] == "raw" else decimal.Decimal(v[1]) if v[0] == "raw_dec" else float(v[1]) if v[0] == "raw_float" else M.untag(v)
         else:
             kw[k] = _build_raw(v)
     members = [(m[1] if m[0] == "raw" else M.untag(m)) if M.is_scalar(m) else _build_raw(m) for m in desc["list"]]
@@ -398,7 +409,7 @@ def check_case(case):
     if desc is not None:
         if ob["kind"] not in ():
             routes.append("constructor")
-        if ob["kind"] not in ("undeclared-keyword", "foreign-member-type"):
+        if ob["kind"] not in ("undeclared-keyword", "foreign-member-type", "integer-over-limit-as-number"):
             routes.append("etree")
     if tree is not None:
         routes.append("etree-given")
